@@ -139,6 +139,41 @@ def old_syntax(run):
     return len(cases)
 
 
+DYN_XML = '''<?xml version="1.0" encoding="utf-8"?>
+<nta><declaration>int g; broadcast chan c;
+void bump(int &amp;r) { r++; }
+dynamic Child(%s);</declaration>
+<template><name>Child</name><parameter>%s</parameter><location id="idd"/><location id="ide"/><init ref="idd"/>
+<transition><source ref="idd"/><target ref="ide"/><label kind="assignment">%s</label></transition></template>
+<template><name>T</name><location id="id0"/><location id="id1"/><init ref="id0"/>
+<transition><source ref="id0"/><target ref="id1"/><label kind="assignment">spawn Child(1)</label></transition></template>
+<system>system T;</system></nta>'''
+DYN_WRITES = ['n = 1', 'n += 2', 'n++', '--n', 'bump(n)', '(true ? n : n) = 4', 'g = (n = 3)']
+
+
+def dynamic_templates(run):
+    """the parameters of a dynamic template are declared twice (dynamic T(...); and the template's own parameter list): a write to a parameter that either place
+    declares const is rejected (as a write to a constant or as an inconsistent declaration), a write to one both declare mutable is accepted"""
+    j = vlib.Job()
+    cases = []
+    for decl, defn, const in (('const int n', 'const int n', True), ('int n', 'int n', False), ('int n', 'const int n', True), ('const int n', 'int n', True)):
+        for w in DYN_WRITES + ['g = n + 1']:
+            cases.append((decl, defn, const and w != 'g = n + 1' or decl != defn, w, DYN_XML % (decl, defn, esc(w))))
+            j.case('dy%d' % (len(cases) - 1), fork=True).model('xml', cases[-1][4]).dump('errors').end()
+    rr = vlib.run_jobs(j)
+    for k, (decl, defn, must_reject, w, xml) in enumerate(cases):
+        c = rr['dy%d' % k]
+        if c['status'] != 'ok':
+            run.fail('type checker crashed on a dynamic template (%r)' % w, dict(xml=xml, status=c['status']), shape='crash:dynamic-template')
+            continue
+        errs = [l.split('msg="')[1].split('"')[0] for l in c['cmds'][1][2] if l.startswith('error')]
+        if must_reject and not errs:
+            run.fail('dynamic template declared (%s) and defined with (%s): the update %r is accepted' % (decl, defn, w), dict(declared=decl, defined=defn, update=w, xml=xml), shape='const-written:dynamic-template:%s' % ('mismatch' if decl != defn else 'const'))
+        if not must_reject and errs:
+            run.tie_broken('dynamic template with a mutable parameter: a write (or a read) is rejected', dict(declared=decl, defined=defn, update=w, errors=errs[:2]))
+    return len(cases)
+
+
 def check(run):
     pr = run.proofs()
     drv, err = vlib.build_extract('constness', 'Extract_Constness.v', 'drv_constness') if os.path.exists(os.path.join(vlib.COQ, 'theories', 'Constness.vo')) else (None, 'Constness.vo missing')
@@ -195,7 +230,7 @@ def check(run):
             run.fail('%s on a constant (%s) is accepted: %r' % (fname, src['name'], stmt), dict(source=src['name'], form=fname, xml=xml), shape='const-written:%s:%s' % (src['name'].split(':')[0], fname))
         if not src['const'] and rejected:
             run.fail('%s on a mutable object (%s) is rejected: %r (%s)' % (fname, src['name'], stmt, errs[0] if errs else ''), dict(source=src['name'], form=fname, xml=xml, errors=errs[:2]), shape='mutable-rejected:%s:%s' % (src['name'].split(':')[0], fname))
-    nold = old_syntax(run)
+    nold = old_syntax(run) + dynamic_templates(run)
     if mism:
         run.tie_broken('constness model / mutable twins vs type checker', mism[:8] + [dict(total=len(mism))])
     run.cov.update(old_syntax_cases=nold, evaluations=len(cases) + nold, distinct_nontrivial=len(cases), traces_validated_against_impl=len(cases), exhaustive=True,
